@@ -80,7 +80,8 @@ def hostile_payloads(brine):
     d = brine.dump
     return [
         ("random-bytes", bytes(range(7, 60))), ("empty", b""), ("not-a-tuple", d(5)), ("text", d("RPYC")), ("short-tuple", d(("RPYC", "QUERY"))),
-        ("wrong-magic", d(("XXXX", "QUERY", ("foo",)))), ("numeric-command", d(("RPYC", 5, ()))), ("bytes-command", d(("RPYC", b"QUERY", ("foo",)))),
+        ("wrong-magic", d(("XXXX", "QUERY", ("foo",)))), ("wrong-magic-register", d(("rpyc", "REGISTER", (("evil2",), 77)))),
+        ("wrong-magic-unregister", d(("RPYc", "UNREGISTER", (1000,)))), ("numeric-command", d(("RPYC", 5, ()))), ("bytes-command", d(("RPYC", b"QUERY", ("foo",)))),
         ("tuple-command", d(("RPYC", ("QUERY",), ()))), ("none-command", d(("RPYC", None, ()))), ("unknown-command", d(("RPYC", "NOSUCH", ()))),
         ("private-command", d(("RPYC", "_work", ()))), ("no-args", d(("RPYC", "QUERY", ()))), ("too-many-args", d(("RPYC", "QUERY", ("a", "b", "c")))),
         ("args-not-tuple", d(("RPYC", "QUERY", 5))), ("name-not-text", d(("RPYC", "QUERY", (5,)))), ("names-is-text", d(("RPYC", "REGISTER", ("abc", 1)))),
@@ -89,6 +90,12 @@ def hostile_payloads(brine):
         ("unregister-noargs", d(("RPYC", "UNREGISTER", ()))), ("oversized", d(("RPYC", "QUERY", ("x" * 3000,)))), ("truncated-brine", d(("RPYC", "QUERY", ("foo",)))[:-2]),
         ("magic-bytes", d((b"RPYC", "QUERY", ("foo",)))), ("nested", d(((("RPYC",),), (("QUERY",),), ((("a",),),)))),
     ]
+
+
+MUST_NOT_PROCESS = set(["random-bytes", "empty", "not-a-tuple", "text", "short-tuple", "wrong-magic", "wrong-magic-register",
+                        "wrong-magic-unregister", "numeric-command", "bytes-command", "tuple-command", "none-command", "unknown-command",
+                        "private-command", "magic-bytes", "nested"])
+# (an oversized or truncated datagram may still parse - brine reads short strings leniently - and then is an ordinary query)
 
 
 def run_one(choices, params):
@@ -205,8 +212,10 @@ def run_one(choices, params):
                     if result is None or list(result) != list(exp):
                         got = None if result is None else list(result)
                         if got is not None and sorted(map(repr, got)) == sorted(map(repr, exp)):
-                            # same set, different order: accept only if the refresh instants tie
-                            continue
+                            # same set, different order: acceptable only among entries whose refresh instants tie
+                            ts = model.services.get(args[1].upper(), {}) if isinstance(args[1], str) else {}
+                            if [ts.get(kk) for kk in got] == sorted(ts.get(kk) for kk in got):
+                                continue
                         raise core.Violation("query-differs", "query %r at t=%.3f answered %r, model says %r" % (args, t, got, list(exp)))
                 elif result != exp:
                     raise core.Violation("query-differs", "%s%r answered %r, model says %r" % (kind, args, result, exp))
@@ -252,6 +261,7 @@ def run_one(choices, params):
                                      "blocked in %r" % (after, sim.now - t0, stask.what), sig=after)
 
         registered = {}       # (host, port) -> aliases, as the history intends
+        intent = Model(pruning)     # what the good clients asked for, as seen from the outside (used when no datagram faults are on)
         hostile = hostile_payloads(brine)
         nsteps = 8 + w.draw(33)
         for step in range(nsteps):
@@ -262,18 +272,25 @@ def run_one(choices, params):
                 names = tuple(w.pick(("foo", "Foo", "FOO", "bar", "Baz", "qux")) for _ in range(1 + w.draw(3)))
                 ok = on_host(host, lambda: client(host).register(names, port))
                 registered[(host, port)] = names
+                intent.register(host, names, port, sim.now)
                 if not faulty and ok is not True and transport == "udp":
                     raise core.Violation("query-differs", "register%r from %s was not acknowledged on a loss-free network" % ((names, port), host))
             elif r < 8:
                 sim.count("c18:unregister")
                 info["unreg"] += 1
                 on_host(host, lambda: client(host).unregister(port))
+                intent.unregister(host, port)
                 sim.sleep(0.25)
             elif r < 13:
                 name = w.pick(("foo", "FOO", "fOo", "bar", "baz", "nosuch", "QUX"))
                 n0 = len(processed)
+                tq = sim.now
                 ans = on_host(host, lambda: client(host).discover(name))
                 if not faulty:
+                    want = intent.query(host, name, tq)
+                    if sorted(map(repr, ans)) != sorted(map(repr, want)):
+                        raise core.Violation("query-differs", "%s asked for %r and got %r; the servers that registered under it, did not unregister "
+                                             "and refreshed within %.0fs are %r" % (host, name, list(ans), pruning, list(want)))
                     mine = [p for p in processed[n0:] if p[0] == "query" and p[1][1] == name]
                     if mine and mine[-1][3] is not None and list(ans) != list(mine[-1][3]):
                         raise core.Violation("query-differs", "client got %r, server computed %r" % (ans, mine[-1][3]))
@@ -309,8 +326,12 @@ def run_one(choices, params):
                         else:
                             k.kill_connection(so._d, "rst", "hostile reset")
                             so.close()
+                nproc = len(processed)
                 on_host("10.9.9.9", send_hostile)
                 sim.sleep(0.125)
+                if kindh in MUST_NOT_PROCESS and transport == "udp" and len(processed) != nproc:
+                    raise core.Violation("state-altered-by-hostile-input", "the %s message was executed as the command %r" % (
+                        kindh, processed[nproc][:2]))
                 alive_and_answering(kindh if transport == "udp" or not hold else ("silent TCP client" if hold else kindh))
             sync_model()
         # ---- epilogue --------------------------------------------------------------------------------------------
